@@ -3,6 +3,7 @@
   Property theorems only (helper lemmas live in PsProofs).
 -/
 import PsProofs.IterRun
+import PsModel.Generated.Locks
 
 namespace Ps.Props
 open Ps Ps.Spec
@@ -83,5 +84,20 @@ theorem C03_moved_from_like_fresh (env : Env) (henv : EnvOK env) (s h : Nat) (hs
 /-- non-vacuity: there is an environment satisfying `EnvOK` -/
 example : ∃ env : Env, EnvOK env :=
   ⟨{ isPrime := fun n => decide n.Prime, o := ⟨id, id, id, id⟩ }, fun n => by simp⟩
+
+/-- **C03 (model sources)** regenerated on every run: digests of the (comment-, hook- and whitespace-normalised) bodies of the
+    functions that the hand-written model behind the theorems of this file mirrors.  An edit to one of
+    them — harmless or not — breaks this obligation; the check then searches for a failing input
+    with the correspondence streams (DESIGN.md section 2, step 5). -/
+theorem C03_model_sources :
+    Gen.modelSources.filter (fun e => e.1 ∈ ["iterator.generate_next_primes", "iterator.generate_prev_primes", "iterator.jump_to", "iterator.clear", "iterator.move_ctor", "iterator.move_assign", "iterator.hpp.next_prime", "iterator.hpp.prev_prime"]) =
+     [("iterator.generate_next_primes", "2a13a14724829f92f5fe"),
+      ("iterator.generate_prev_primes", "1784049c687ca3b8c7e8"),
+      ("iterator.jump_to", "130c2420f114441dcb1e"),
+      ("iterator.clear", "aa40e08e21600bb96ea4"),
+      ("iterator.move_ctor", "ce27cefb4a651ddb25af"),
+      ("iterator.move_assign", "d81f5830efdc68736a88"),
+      ("iterator.hpp.next_prime", "3ef2a1a42a787f93e2be"),
+      ("iterator.hpp.prev_prime", "57cdaf17aeb89aae2176")] := by decide
 
 end Ps.Props
